@@ -314,10 +314,11 @@ def twoSiteW (J : Rat) (i o : List Bool) : Rat :=
 /-- `transverse_hamiltonian` -/
 def transverseW (g : Rat) (_i _o : List Bool) : Rat := g
 
-/-- `longitudinal_hamiltonian` -/
+/-- `longitudinal_hamiltonian` (since the fix 9464564 the field term is diagonal: `0` off the
+diagonal, `|h| + h` for (1,1), `|h| - h` for (0,0)) -/
 def longitudinalW (h : Rat) (i o : List Bool) : Rat :=
   match i, o with
-  | [a], [c] => absR h + (if a != c then 0 else if a then h else -h)
+  | [a], [c] => if a != c then 0 else absR h + (if a then h else -h)
   | _, _ => 0
 
 /-- bond numbering of `QmcIsingGraph`: edges, then one transverse bond per variable (constant),
